@@ -360,6 +360,9 @@ func await(done <-chan struct{}, what string) *problem {
 			return nil
 		case <-time.After(20 * time.Second):
 			if dump := goroutineDump(); deadlocked(dump) {
+				if f := os.Getenv("VERIF_FULL_DUMP"); f != "" {
+					_ = os.WriteFile(f, []byte(dump), 0o644)
+				}
 				return &problem{"deadlock", what + " and nothing can run:\n" + trimDump(dump)}
 			}
 			if now := progress.Load(); now != last {
